@@ -184,6 +184,37 @@ def gen_scenario(rng, nfiles=None, shared=False):
             "sched": rng.randrange(1 << 30), "nthreads": rng.choice([1, 2, 4, 8])}
 
 
+def gen_stale_alias_scenario(rng):
+    """directed: of a variant with several names (by-hash), the one that is tried first is already there, complete and with the
+    date the server announces (as after a run that was killed right after writing it, or when a sibling with the same content
+    was mirrored earlier), while the other names exist with OTHER content (what the index used to be): reported unmodified,
+    the variant must end with all its names on the same content"""
+    sc = gen_scenario(rng, nfiles=rng.randint(1, 3))
+    files = [build_dfile(d) for d in sc["descs"]]
+    tagc = [9000]
+    grp = 5000
+    for f in files:
+        for v in f.compression_variants.values():
+            allp = [str(p) for p in v.get_all_paths()]
+            if len(allp) < 2 or v.size <= 0:
+                continue
+            sc["fs"] = [e for e in sc["fs"] if e["path"] not in allp]
+            date = rng.choice(DATES)
+            tagc[0] += 2
+            grp += 2
+            sc["fs"].append({"path": allp[0], "size": v.size, "mtime": date, "tag": tagc[0], "group": grp})
+            osize = rng.choice([v.size, v.size, v.size + 1, max(1, v.size - 1)])
+            omt = rng.choice([date, date - 5, None])
+            for p in allp[1:]:
+                if rng.random() < 0.8:
+                    sc["fs"].append({"path": p, "size": osize, "mtime": omt, "tag": tagc[0] + 1, "group": grp + 1})
+            for p in allp:
+                r = good_resp(rng, v.size, tagc, date=date)
+                r.announced = v.size
+                sc["scripts"][p] = [r]
+    return sc
+
+
 def gen_shared_scenario(rng, fillers=0):
     """two (or three) index files with byte-identical content in one directory: with by-hash they share their
     by-hash/<Algo>/<hash> target and URL (as the identical empty Translation / dep11 files of real archives do);
